@@ -43,7 +43,7 @@ LOCK = ["A6", "A6", "A1", "A3"]
 
 def tasks(tier, seed):
     global CASE_TIMEOUT
-    CASE_TIMEOUT = 2.5 if tier == "quick" else 15.0
+    CASE_TIMEOUT = 2.5 if tier == "quick" else 6.0
     n = 3200 if tier == "quick" else 64000
     shards = 32 if tier == "quick" else 128
     t = [(MOD, "hyp", (n // shards, seed * 1_000_003 + i, tier)) for i in range(shards)]
